@@ -10,15 +10,21 @@ import subprocess
 import sys
 
 V = "/verif"
+# SEED_BOX=<name>: apply the patches and run the checks in the box /tmp/kvbox/<name> (tools/mkbox.sh) instead of /repo + /verif,
+# so that /repo itself is never modified (meta.json is still written to /verif/seeded); evidence of the box is not kept
+BOX = os.environ.get("SEED_BOX")
+REPO = "/tmp/kvbox/%s/repo" % BOX if BOX else "/repo"
+CV = "/tmp/kvbox/%s/verif" % BOX if BOX else V
+ENV = dict(os.environ, **({"KV_REPO": REPO} if BOX else {}))
 names = sys.argv[1:] or sorted(os.path.basename(d) for d in glob.glob(V + "/seeded/*") if os.path.isdir(d))
 affected = set()
-assert subprocess.run("git -C /repo status --porcelain --untracked-files=no", shell=True, capture_output=True, text=True).stdout.strip() == "", \
+assert subprocess.run("git -C %s status --porcelain --untracked-files=no" % REPO, shell=True, capture_output=True, text=True).stdout.strip() == "", \
     "/repo has local changes"
 for n in names:
     d = os.path.join(V, "seeded", n)
     meta = json.load(open(d + "/meta.json"))
     props = [meta.get("breaks_property") or meta["property"]] + list(meta.get("also_run", []))
-    r = subprocess.run(["git", "-C", "/repo", "apply", d + "/patch.diff"], capture_output=True, text=True)
+    r = subprocess.run(["git", "-C", REPO, "apply", d + "/patch.diff"], capture_output=True, text=True)
     if r.returncode != 0:
         print(n, "PATCH DOES NOT APPLY", r.stderr[:300])
         meta["caught_by"] = "patch no longer applies to /repo main: " + r.stderr[:200]
@@ -28,7 +34,7 @@ for n in names:
     try:
         for p in props:
             affected.add(p)
-            q = subprocess.run(["./check", p, "--tier", "quick"], cwd=V, capture_output=True, text=True, timeout=1800)
+            q = subprocess.run(["./check", p, "--tier", "quick"], cwd=CV, env=ENV, capture_output=True, text=True, timeout=1800)
             lines = [l for l in q.stdout.splitlines() if l.startswith("VIOLATION") or l.startswith(p + " tier=")]
             viol = [l for l in lines if l.startswith("VIOLATION")]
             why = ""
@@ -38,10 +44,10 @@ for n in names:
                     why = json.load(open(path)).get("reason", "")[:200]
                 except Exception:
                     pass
-            res[p] = ("CAUGHT rc=%d: %s | %s" % (q.returncode, viol[0].replace("/verif/evidence/replays/", ""), why)) if viol else \
+            res[p] = ("CAUGHT rc=%d: %s | %s" % (q.returncode, viol[0].replace(CV + "/evidence/replays/", ""), why)) if viol else \
                      ("MISSED rc=%d: %s" % (q.returncode, lines[-1] if lines else q.stdout[-200:]))
     finally:
-        subprocess.run("git -C /repo checkout -- . ", shell=True)
+        subprocess.run("git -C %s checkout -- . " % REPO, shell=True)
     main = props[0]
     meta["caught_by"] = res.get(main, "not run")
     if len(props) > 1:
@@ -50,5 +56,5 @@ for n in names:
     print(n, "|", " || ".join("%s: %s" % kv for kv in res.items()))
 print("re-running affected checks on the clean tree:", sorted(affected))
 for p in sorted(affected):
-    q = subprocess.run(["./check", p, "--tier", "quick"], cwd=V, capture_output=True, text=True, timeout=1800)
+    q = subprocess.run(["./check", p, "--tier", "quick"], cwd=CV, env=ENV, capture_output=True, text=True, timeout=1800)
     print(p, "clean rc=%d" % q.returncode, (q.stdout.strip().splitlines() or [""])[-1][:200])
